@@ -201,8 +201,12 @@ def main():
     fresh_results = [None, 0, "r", [1], {"k": "v"}, {"a": {"b": 2}}]
     for di, doc in enumerate(docs):
         plist = existing_paths(doc, 4) + (paths if di < 25 else rng.sample(paths, 5))
+        if di < 40:
+            # bracket-quoted member names with characters that dot notation cannot carry (written with ResultPath only: the reader, jsonpath, is not asked for them)
+            plist = plist + [[("brq", "keep me")], [("dot", "a"), ("brq", "x@y")], [("brq", "a/b"), ("dot", "c")], [("brq", "p+q")]]
         for segs in plist:
             p = render(segs)
+            special = any(not t.replace("_", "").isalnum() for _, t in segs)
             toks = [t for _, t in segs]
             kinds = ["fresh", "self"] + (["sub"] if isinstance(doc, (dict, list)) and doc else [])
             for kind in (kinds if di < 60 else [rng.choice(kinds)]):
@@ -223,7 +227,7 @@ def main():
                     in_same = res_same = False
                 fin = obs[0] == "err" or finite(obs[1])
                 back = None
-                if obs[0] == "ok" and fin:
+                if obs[0] == "ok" and fin and not special:
                     back = observe(sp.apply_jsonpath, copy.deepcopy(obs[1]), p)
                 try:
                     ro = coq_result(obs) if fin else "(Err PyOther)"
